@@ -136,12 +136,17 @@ ColourAt(tiles, scale, mtype, phase, X, Y) ==
 \* Pixel (x, y) of the cropped frame
 Pixel(f, phase, x, y) == ColourAt(Tiles(f), f.scale, f.mask, phase, x + f.x, y + f.y)
 
-\* the whole frame as a matrix M[y + 1][x + 1]
-Matrix(f, phase) ==
-  LET tiles == Tiles(f)
-      vw == ViewW(f, tiles)
+\* the whole frame as a matrix M[y][x], 1-based (pixel (x, y) is M[y + 1][x + 1])
+MatrixOf(f, tiles, phase) ==
+  LET vw == ViewW(f, tiles)
       vh == ViewH(f, tiles)
   IN Force([y \in 1..vh |-> Force([x \in 1..vw |-> ColourAt(tiles, f.scale, f.mask, phase, x - 1 + f.x, y - 1 + f.y)])])
+Matrix(f, phase) == MatrixOf(f, Tiles(f), phase)
+
+\* An animation shows frame j of a sequence at (xo, yo) on the canvas of frame 1 (APNG dispose "none",
+\* blend "source"): what is on the canvas after frame B was rendered over canvas A
+Over(A, B, xo, yo) == Force([y \in 1..Len(A) |-> Force([x \in 1..Len(A[y]) |->
+                         IF y > yo /\ y <= yo + Len(B) /\ x > xo /\ x <= xo + Len(B[1]) THEN B[y - yo][x - xo] ELSE A[y][x]])])
 
 ---------------------------------------------------------------------------
 (* Part 2: colours in the file                                              *)
